@@ -315,11 +315,16 @@ def cursor_lhs(l, local_ids=()):
     while isinstance(b, dict) and b.get('k') == 'cast': b = b['e']
     if isinstance(b, dict) and b.get('k') == 'ref' and b.get('d') in local_ids: return None
     if l.get('k') == 'ref' and l.get('d') in local_ids: return None
-    if l.get('k') == 'member' and l.get('n') in FIELDS and 'inputerator' in ((l.get('b') or {}).get('t') or '').replace('inputerator_t', ''): return 'counter ' + l['n']
+    if l.get('k') == 'member' and l.get('n') in FIELDS and 'inputerator' in ((l.get('b') or {}).get('t') or '').replace('inputerator_t', ''):
+        bb = l.get('b') or {}
+        while bb.get('k') == 'cast': bb = bb['e']
+        if bb.get('k') == 'member' and bb.get('n') not in ('m_current',): return None      # a counter of a stored copy (node begin / end, marker), not of a cursor
+        return 'counter ' + l['n']
     if l.get('k') == 'member' and l.get('n') == 'm_current': return 'm_current'
     if l.get('k') == 'call' and l.get('cn') == 'inputerator': return 'inputerator()'
     t = l.get('t') or ''
-    if l.get('k') in ('ref', 'member') and 'internal::inputerator' in t and not t.startswith('const'): return 'iterator ' + str(l.get('n'))
+    # a whole iterator: only a by-reference parameter can be somebody's cursor (members of other classes - parse tree nodes, markers - hold copies)
+    if l.get('k') == 'ref' and l.get('dk') == 'ParmVar' and 'internal::inputerator' in t and not t.startswith('const'): return 'iterator ' + str(l.get('n'))
     return None
 
 
